@@ -294,6 +294,23 @@ func init() {
 			}
 			got = sortedSplit(s, "")
 			want = c19Expected(tabs["ldap_attributes"], "UserAccountControl", w, false, func(n string) bool { return strings.Contains(n, "RESERVED") })
+			// GetFlags: the same decomposition as a list of flag values - every named bit that is set, once, ascending
+			var gf []string
+			prev := uint64(0)
+			for i, f := range ldap_attributes.UserAccountControl(w).GetFlags() {
+				if i > 0 && uint64(f) <= prev {
+					return "C19/uac/getflags-order", fmt.Sprintf("UserAccountControl(%#x).GetFlags() is not strictly ascending at index %d", w, i)
+				}
+				prev = uint64(f)
+				if uint64(f)&w == 0 || uint64(f)&(uint64(f)-1) != 0 {
+					return "C19/uac/getflags-bit", fmt.Sprintf("UserAccountControl(%#x).GetFlags() contains %#x, not a single set bit of the word", w, uint64(f))
+				}
+				gf = append(gf, ldap_attributes.UserAccountControlMap[f])
+			}
+			sort.Strings(gf)
+			if strings.Join(gf, "|") != strings.Join(got, "|") {
+				return "C19/uac/getflags", fmt.Sprintf("UserAccountControl(%#x): GetFlags names %v, String names %v", w, gf, got)
+			}
 		}
 		if strings.Join(got, "|") != strings.Join(want, "|") {
 			return "C19/decompose/" + kind, fmt.Sprintf("%s(%#x): got %v, the set bits are named %v", kind, w, got, want)
